@@ -1084,3 +1084,12 @@ func ufHijacked(w http.ResponseWriter) *bufio.ReadWriter { return nil }
 //@   loop 3 invariant [rw]  rw == ufHijacked(w) && rw != nil && rw.Writer != nil && conn != nil && outCalls(wrOf(rw.Writer)) == old(outCalls(wrOf(ufHijacked(w).Writer))) && outLen(wrOf(rw.Writer)) == old(outLen(wrOf(ufHijacked(w).Writer)))
 //@   loop 1 invariant [i] 0 <= i
 //@   loop 3 invariant [i] 0 <= i
+
+// writeAccept (C09): what is written as Sec-WebSocket-Accept is exactly the 28 bytes computed from
+// the key, in one write.
+//@ func writeAccept
+//@   props C09
+//@   requires [nonce] bw != nil && len(nonce) == 24
+//@   ensures  [one]    bwCalls(bw) == old(bwCalls(bw))+1 && len(ufWritten(bw, old(bwCalls(bw)))) == 28
+//@   ensures  [accept] forall(0, 28, func(i int) bool { return ufWritten(bw, old(bwCalls(bw)))[i] == specAccept(nonce, i) })
+//@   assigns outstream(wrOf(bw))
